@@ -50,3 +50,35 @@ def unit_stream_cleanup(twin=False):
     r.proved_kind = "structural"
     r.assumptions += ["pop_istream removes exactly one entry (body not under contract)", "exceptions other than IPhreeqcStop are rethrown to the caller by design"]
     return r
+
+
+def unit_ofstream_open(twin=False):
+    """PHRQ_io::ofstream_open (every output file is opened through it): the caller's stream pointer is replaced only when the new file
+    opened; on failure the new object is released and the caller's pointer is untouched (never left pointing at a deleted stream, which
+    close_output_files would delete a second time)."""
+    q = "PHRQ_io::ofstream_open"
+    fn = A.find_function(PIO, q)
+    r = U.new_unit("C08.ofstream_open.pointer_replaced_only_on_success", PIO, q, fn)
+    c = ctx(); c.log_stores = True
+    f, ex, fin, info = U.run_function(PIO, q, ctx=c)
+    os_ = tm.sym("P0_os", "P")
+    seen = set()
+    for s in [s for s in fin if s.status == "ret" and B.z3_sat(list(s.pc)) != "unsat"]:
+        news = [e.result for e in s.events if e.name.startswith("new ")]
+        dels = [e.args[0] for e in s.events if e.name == "delete"]
+        stores = [e.args[1] for e in s.events if e.name == "store" and e.recv is os_]
+        closes = [e for e in s.events if e.name.endswith("safe_close")]
+        names = [e.name.split("::")[-1] for e in s.events]
+        if tm.isnum(s.ret) and s.ret.args[0] == 0 or s.ret is tm.FALSE:
+            seen.add("failure")
+            ok = not stores and not closes and dels == news and not twin
+            r.add("failure.new_object_released_and_caller's_pointer_untouched", DISCHARGED if ok else FAILED, "trace", 0, repr(names))
+        else:
+            seen.add("success")
+            ok = len(stores) == 1 and stores[0] is news[0] and len(closes) == 1 and not dels and names.index("safe_close") < names.index("store")
+            r.add("success.old_stream_closed_then_pointer_set_to_the_open_stream", DISCHARGED if ok else FAILED, "trace", 0, repr(names))
+            opened = [e.result for e in s.events if e.name.endswith("is_open")]
+            r.add("success.only_when_the_file_is_open", DISCHARGED if opened and B.z3_prove(list(s.pc), tm.to_bool(opened[0]))[0] == "proved" else FAILED, "z3", 0, repr(s.pc)[:120])
+    r.add("reach.both_outcomes", DISCHARGED if seen == {"failure", "success"} else UNDECIDED, "symex", 0, repr(sorted(seen)), kind="vacuity")
+    r.assumptions += ["operator new / delete and std::ofstream are opaque (events)", "safe_close releases and nulls the pointer it is given (not under this unit)"]
+    return r
